@@ -217,6 +217,7 @@ Fixpoint optimize (fuel : nat) (r : val) : ores :=
                 if OPT_VAR_CHANGE_SKIPS_PAIR_HEAD && (match call with Cons (Cons _ _) _ => true | _ => false end) then Done r else
                 let new := sub_args call args in
                 if seems_constant new then optimize f new
+                else if OPT_VAR_CHANGE_SKIPS_NEW_PAIR_HEAD && (match new with Cons (Cons _ _) _ => true | _ => false end) then Done r
                 else match to_list new with
                      | None => Done r
                      | Some operands =>
